@@ -99,7 +99,7 @@ def wire_oracle(ix: Index, scn: dict) -> list[Violation]:
             # which writes belong to which harness batch
             batch_of: dict = {}
             for op in ix.ops:
-                if op.do in ("send", "fh.write") and op.s1 is not None:
+                if op.do in ("send", "fh.write") and op.s1 is not None and (op.conn is None or ix.fd_conn.get(fd) in (None, op.conn)):  # (a batch belongs to the session it was sent on)
                     inside = [i for i, (seq, data, turn, tt) in enumerate(writes) if op.s0 < seq < op.s1]
                     n_given = len(op.args.get("msgs", op.args.get("packets", [])))
                     if op.ok and n_given == 0:
@@ -250,6 +250,17 @@ def gen_session_writes(rng: random.Random) -> dict:
                 events.append({"at": at, "do": "fault", "kind": "tx_block", "d": pick(rng, [0.01, 0.2, 1.0]), "phase": "pre"})
             else:
                 events.append({"at": at, "do": "fault", "kind": "tx_short", "n": pick(rng, [1, 3, 100, 4096]), "phase": "pre"})
+    if rng.random() < 0.15:
+        # for a moment the transport refuses every write (its peer is gone): the write that meets it fails and ends the
+        # session; the application connects again - what the new session writes is its own batches and nothing else
+        t_bad = 1.0 + rng.random() * 3
+        events.append({"at": {"t": t_bad}, "do": "fault", "kind": "write_raises", "always": True, "exc": pick(rng, ["OSError", "RuntimeError"])})
+        events.append({"at": {"t": t_bad + pick(rng, [0.2, 1.0])}, "do": "fault", "kind": "knob", "name": "write_raises_now", "value": False})
+        again = [{"do": "connect", "login": rng.random() < 0.5}]
+        for _ in range(rng.randint(1, 3)):
+            again.append({"do": "send", "msgs": [pick(rng, SMALL) for _ in range(pick(rng, [1, 2, 5]))]})
+        again += [{"do": "sleep", "d": 1.0}, {"do": "disconnect"}]
+        actors.append({"id": "again", "at": {"t": 8.0}, "steps": again})
     return {
         "family": "session",
         "knobs": gen_knobs(rng),
